@@ -1387,13 +1387,33 @@ pub fn generate(r: &mut Rng) -> TypedWorkspace {
                 _ => Vec::new(),
             };
             let shown = show(pt, &adts);
-            text.push_str(&format!("\npub fn dot_probe_{mi}_{k}(p: {shown}) {{\n  let q = p\n  let _ = p."));
+            // the let-bound copy is, where the module has one, spelled like the accessor of an imported module
+            // (`import t0` ... `let t0 = p` ... `t0.`): a value that shadows a module still has its fields only
+            let q: String = accessors.values().flatten().next().filter(|_| k % 2 == 0).cloned().unwrap_or_else(|| "q".to_string());
+            if q != "q" && !features.contains(&"value-dot-on-a-local-spelled-like-a-module") {
+                features.push("value-dot-on-a-local-spelled-like-a-module");
+            }
+            text.push_str(&format!("\npub fn dot_probe_{mi}_{k}(p: {shown}) {{\n  let {q} = p\n  let _ = p."));
             dot_probes.push(DotProbe { module: mi, offset: text.len(), binder: "parameter", ty: shown.clone(), expected: expected.clone() });
-            text.push_str("zz\n  let _ = q.");
+            text.push_str(&format!("zz\n  let _ = {q}."));
             dot_probes.push(DotProbe { module: mi, offset: text.len(), binder: "let", ty: shown.clone(), expected: expected.clone() });
-            text.push_str("zz\n  case q {\n    r -> r.");
+            text.push_str(&format!("zz\n  case {q} {{\n    r -> r."));
             dot_probes.push(DotProbe { module: mi, offset: text.len(), binder: "clause-variable", ty: shown.clone(), expected });
             text.push_str("zz\n  }\n}\n");
+        }
+        // an opaque type: its fields are its module's business. Module 0 declares it (and may look into it),
+        // a module that imports module 0 under an accessor gets a value of it and must be offered nothing after the dot
+        if mi == 0 {
+            text.push_str("\npub opaque type Sealed {\n  Sealed(secret: Int, stamp: Int)\n}\n\npub fn dot_probe_sealed_own(p: Sealed) {\n  let _ = p.");
+            dot_probes.push(DotProbe { module: 0, offset: text.len(), binder: "parameter", ty: "Sealed (opaque, own module)".into(), expected: vec!["secret".into(), "stamp".into()] });
+            text.push_str("zz\n}\n");
+        } else if let Some(Some(acc)) = accessors.get(&0) {
+            text.push_str(&format!("\npub fn dot_probe_sealed_{mi}(p: {acc}.Sealed) {{\n  let _ = p."));
+            dot_probes.push(DotProbe { module: mi, offset: text.len(), binder: "parameter", ty: "Sealed (opaque, another module)".into(), expected: vec![] });
+            text.push_str("zz\n}\n");
+            if !features.contains(&"value-dot-on-an-opaque-type-of-another-module") {
+                features.push("value-dot-on-an-opaque-type-of-another-module");
+            }
         }
         modules.push(m);
         texts.push(text);
